@@ -125,6 +125,11 @@ func ZZ_C22_member() {
 	c := zzCommittee(cfg)
 	m := &CRMember{Info: payload.CRInfo{CID: common.Uint168{0x67, 5}, DID: common.Uint168{0x67, 6}}, MemberState: MemberState(nd.Choose("memberState", 6)),
 		InactiveCount: nd.U32("inactiveCount"), ActivateRequestHeight: 0xffffffff}
+	// an activation request may already be pending (the transaction check does
+	// not refuse a second request of a council member)
+	if nd.Bool("activationAlreadyRequested") {
+		m.ActivateRequestHeight = zzH - 2
+	}
 	if nd.Bool("hasNode") {
 		m.DPOSPublicKey = zzCRKey(5)
 		c.ClaimedDPoSKeys[common.BytesToHexString(m.DPOSPublicKey)] = struct{}{}
